@@ -32,10 +32,14 @@ def gen_case(rng, tier, avoid):
         lfi = spec.logical_file(fh_id='LF-%d' % li)
         sn = {'set_name': 'S%d' % li} if n_lf > 1 else {}
         n_or = rng.choice([1, 1, 2, 3])
+        # several origins of one logical file, each in its own named ORIGIN set (the first one written defines the file)
+        named_origin_sets = n_lf == 1 and n_or > 1 and rng.random() < 0.35
         for k in range(n_or):
             okw = dict(sn)
             if rng.random() < 0.4:
                 okw['origin_reference'] = [2, 9, 130, 16384][k % 4] + li * 3
+            if named_origin_sets:
+                okw['set_name'] = 'OS-%d' % k
             spec.origin(lfi, nm='ORIGIN-%d' % k, **okw)
         used = set()
         for _ in range(rng.choice([1, 2])):
@@ -67,6 +71,14 @@ def gen_case(rng, tier, avoid):
         elif mode == 'origin_last':
             o = [x for x in prog if x.get('kind') == 'origin']
             prog = [x for x in prog if x.get('kind') != 'origin'] + o
+        if named_origin_sets and rng.random() < 0.6:
+            # a rejected add_origin naming the set of a LATER origin, made before any origin exists: it must not decide
+            # which origin comes first in the file
+            first_o = next(i for i, x in enumerate(prog) if x.get('kind') == 'origin')
+            prog = list(prog)
+            prog.insert(rng.randint(1, first_o), {'op': 'add', 'lf': lfi['lf'], 'kind': 'origin', 'h': 'rej_o%d' % li, 'name': 'REJECTED',
+                                                  'kwargs': {'set_name': 'OS-%d' % rng.randint(1, n_or - 1), 'creation_time': 'garbage'},
+                                                  'bad': 'origin_bad_time', 'c': 0})
         progs.append(prog)
     hist = spec.ops[:1]
     idx = [0] * n_lf
